@@ -16,7 +16,7 @@ inductive DSt
   | sr (s : SR)
   | ct (s : CT)
   | ss (s : SS)
-  | ev (s : EV) (top : Nat)
+  | ev (s : EV) (bot top : Int)
   | wg (s : WG)
   | dv (s : DV)
 
@@ -52,9 +52,9 @@ def qLine : List String → String
   | ["sorted", mode, ws, desc, asc, h, l] => optB do
       pure (qSorted (mode == "less") (← parsePairs ws) (← parseNats desc) (← parseNats asc) (← h.toNat?) (← l.toNat?))
   | ["evict", last, evs] => optB do
-      let last ← if last == "none" then some none else last.toNat?.map some
+      let last ← if last == "none" then some none else last.toInt?.map some
       let evs ← parsePairs evs
-      pure (qEvict last (evs.map (fun p => (p.1, p.2 != 0))))
+      pure (qEvict last (evs.map (fun p => ((p.1 : Int), p.2 != 0))))
   | ["wg", pending, dones, trig] => optB do
       pure (qWaitGroup (← parseNats pending) (← dones.toNat?) (trig == "true"))
   | _ => "bad-op"
@@ -80,14 +80,14 @@ def stepLine (st : DSt) (toks : List String) : DSt × String :=
   | "ss" :: rest =>
     let s := match st with | .ss s => s | _ => SS.init false
     let r := s.stepLine rest; (.ss r.1, r.2)
-  | ["ev", "new"] => (.ev EV.init (2 ^ 63 - 1), "ok")
+  | ["ev", "new"] => (.ev EV.init (-(2 ^ 63)) (2 ^ 63 - 1), "ok")
   | ["ev", "new", ty] =>
-    match evTop ty with
-    | some top => (.ev EV.init top, "ok")
+    match evRange ty with
+    | some r => (.ev EV.init r.1 r.2, "ok")
     | none => (.none, "bad-op")
   | "ev" :: rest =>
     match st with
-    | .ev s top => let r := s.stepLine top rest; (.ev r.1 top, r.2)
+    | .ev s bot top => let r := s.stepLine bot top rest; (.ev r.1 bot top, r.2)
     | _ => (st, "bad-op")
   | "dv" :: rest =>
     let cur := match st with | .dv s => some s | _ => none
